@@ -133,6 +133,9 @@ pub fn realise_decorated(g: &Graph, real: Real, order: &[usize], refs_other_case
         "init-struct-before" => ("  deco : Pdeco := (x := 1);\n", ""),
         "init-struct-after" => ("", "  deco : Pdeco := (x := 1);\n"),
         "mixed-before" => ("  dlv : Ldeco := Lo;\n  darr : ARRAY [1..2] OF INT;\n  dstr : STRING;\n", ""),
+        // references that are no containment: every function block names every function block (itself included)
+        // in a VAR_EXTERNAL block — an external refers to an instance that lives elsewhere
+        "externals-to-all" => ("", ""),
         _ => ("", ""),
     };
     if !decoration.is_empty() {
@@ -142,6 +145,13 @@ pub fn realise_decorated(g: &Graph, real: Real, order: &[usize], refs_other_case
         Real::Fb => {
             for &i in order {
                 s.push_str(&format!("FUNCTION_BLOCK F{}\n", i));
+                if decoration == "externals-to-all" {
+                    s.push_str("VAR_EXTERNAL\n");
+                    for j in 0..g.n {
+                        s.push_str(&format!("  x{}_{} : {}{};\n", i, j, rf, j));
+                    }
+                    s.push_str("END_VAR\n");
+                }
                 if g.out_degree(i) != 0 {
                     s.push_str("VAR\n");
                     s.push_str(before);
@@ -400,7 +410,7 @@ fn families() -> Vec<(String, Graph)> {
 }
 
 pub fn run(ctx: &mut Ctx) {
-    ctx.rule = "every digraph on n nodes (bitmask over n*n possible edges, self-loops included) x realisations (FB instances; all-struct types; alias for out-degree 1 else struct; function blocks and structures mixed — every assignment of the two kinds for n <= 3, four assignments for n = 4; function blocks and structures also with further variables / elements beside the edge-carrying ones) x {ascending, descending declaration order, ascending with every reference spelled in the other letter case}; distinct = distinct program text; all are non-trivial (each is a different reference graph)".into();
+    ctx.rule = "every digraph on n nodes (bitmask over n*n possible edges, self-loops included) x realisations (FB instances; all-struct types; alias for out-degree 1 else struct; function blocks and structures mixed — every assignment of the two kinds for n <= 3, four assignments for n = 4; function blocks and structures also with further variables / elements beside the edge-carrying ones, and with VAR_EXTERNAL references to every function block, which are no containment) x {ascending, descending declaration order, ascending with every reference spelled in the other letter case}; distinct = distinct program text; all are non-trivial (each is a different reference graph)".into();
     ctx.assumptions.push("reference oracle: a digraph is cyclic iff iterated deletion of successor-free nodes leaves a non-empty rest (harness code, independent of petgraph)".into());
     ctx.assumptions.push("recursion is 'reported' iff the codes contain P0010 or P0013; other codes (e.g. P9999 for unsupported constructs) are ignored in the acyclic direction".into());
     let reals = [Real::Fb, Real::Struct, Real::AliasMix];
@@ -436,6 +446,17 @@ pub fn run(ctx: &mut Ctx) {
                 for o in decos {
                     cases.push(Case { g: g.clone(), real, order_name: o, family: format!("decorated-n{}", n) });
                 }
+            }
+        }
+    }
+    // function blocks that also name each other in VAR_EXTERNAL blocks (no containment)
+    for n in 1..=max_n {
+        let bits = n * n;
+        for mask in 0u64..(1u64 << bits) {
+            let g = Graph::from_mask(n, mask);
+            cases.push(Case { g: g.clone(), real: Real::Fb, order_name: "asc+externals-to-all", family: format!("externals-n{}", n) });
+            if n <= 3 {
+                cases.push(Case { g, real: Real::Fb, order_name: "desc+externals-to-all", family: format!("externals-n{}", n) });
             }
         }
     }
